@@ -54,7 +54,7 @@ def determinism(prop: str, n: int, vseed: int) -> int:
         for i in idx[:: max(1, len(idx) // 10)][:10]:
             seed = core.run_seed(vseed, prop, "quick", i)
             sc = z.call({"cmd": "gen", "seed": seed, "tier": "quick", "i": i})["scenario"]
-            res = z.call({"cmd": "exec", "scenario": sc, "timeout": 120})
+            res = z.call({"cmd": "exec", "scenario": sc, "timeout": z.hello["meta"]["timeout"]["quick"]})
             replayed += 1
             if res.get("digest") != a["digests"].get(str(i)):
                 print(f"selftest {prop}: replay of run {i} from its scenario file gives digest "
